@@ -356,3 +356,63 @@ Proof.
   destruct (pack_top E call Ntop t v n0) as [r n1]. destruct H as [H1 H2].
   split; [| exact H2]. rewrite H1. apply byref_optfree; auto.
 Qed.
+
+(* ------------------------------------------------------------------ *)
+(* the decode side does not look at any dialect: only the field types of the class table matter *)
+Definition fields_agree (E E': env) : Prop :=
+  forall c, (E.(e_ct) c).(c_fields) = (E'.(e_ct) c).(c_fields).
+
+Lemma map_st_ext {A B} (f g: A -> nat -> B * nat) xs :
+  Forall (fun x => forall n, f x n = g x n) xs -> forall n, map_st f xs n = map_st g xs n.
+Proof.
+  induction 1 as [| x r Hx Hr IH]; intros n; simpl; [reflexivity |].
+  rewrite Hx. destruct (g x n) as [y n1]. now rewrite IH.
+Qed.
+
+Lemma zip_st_ext {A B C} (f g: A -> B -> nat -> C * nat) xs :
+  Forall (fun x => forall e n, f x e n = g x e n) xs -> forall es n, zip_st f es xs n = zip_st g es xs n.
+Proof.
+  induction 1 as [| x r Hx Hr IH]; intros es n; destruct es as [| e es]; simpl; try reflexivity.
+  rewrite Hx. destruct (g x e n) as [y n1]. now rewrite IH.
+Qed.
+
+Section DecodeDialect.
+  Variables E E' : env.
+  Hypothesis Hag : fields_agree E E'.
+
+  Lemma run_unpack_dialect_free : forall w t n, run_unpack E w (cu t) n = run_unpack E' w (cu t) n.
+  Proof.
+    induction w as [z | | z | l | k l xs IH | k l kvs IH | c l fs IH] using lv_ind';
+      intros t; induction t as [| lk | | | t' IHt | o t' IHt | t' IHt | ts IHts | o kt IHk vt IHv | c0 | tw IHw | us IHus |] using ty_ind';
+      intros n; try reflexivity; try (apply IHw; fail);
+      try (cbn [cu]; rewrite !ru_opt; first [reflexivity | apply IHt]; fail);
+      try (cbn [cu]; rewrite !ru_union;
+           induction IHus as [| t r Ht Hr IHr]; simpl; [reflexivity |];
+           destruct (cls_fits (tcls t) _); [apply Ht | apply IHr]; fail).
+    - simpl. rewrite (map_st_ext (fun x => run_unpack E x (cu t')) (fun x => run_unpack E' x (cu t')) xs); [reflexivity |].
+      eapply Forall_impl; [| exact IH]. intros x Hx m. apply Hx.
+    - simpl. rewrite (map_st_ext (fun x => run_unpack E x (cu t')) (fun x => run_unpack E' x (cu t')) xs); [reflexivity |].
+      eapply Forall_impl; [| exact IH]. intros x Hx m. apply Hx.
+    - simpl.
+      assert (Hz: forall E0 m, zip_st (fun x e' => run_unpack E0 x e') (map cu ts) xs m
+                         = zip_st (fun x t => run_unpack E0 x (cu t)) ts xs m).
+      { clear. intros E0. revert ts. induction xs as [| x r IHr]; intros ts m; destruct ts as [| t ts]; simpl; try reflexivity.
+        destruct (run_unpack E0 x (cu t) m) as [y m1]. now rewrite IHr. }
+      rewrite !Hz.
+      rewrite (zip_st_ext (fun x t => run_unpack E x (cu t)) (fun x t => run_unpack E' x (cu t)) xs); [reflexivity |].
+      eapply Forall_impl; [| exact IH]. intros x Hx e m. apply Hx.
+    - simpl.
+      match goal with |- (let (ys, n') := map_st ?f kvs ?m in _) = (let (ys, n') := map_st ?g kvs ?m in _) =>
+        rewrite (map_st_ext f g kvs) end; [reflexivity |].
+      eapply Forall_impl; [| exact IH]. intros [k0 x] [Hk Hx] m. simpl in *.
+      rewrite Hk. destruct (run_unpack E' k0 (cu kt) m) as [k' m1]. rewrite Hx. reflexivity.
+    - simpl. rewrite <- (Hag c0).
+      match goal with |- (let (ys, n') := zip_st ?f ?ts kvs ?m in _) = (let (ys, n') := zip_st ?g ?ts kvs ?m in _) =>
+        rewrite (zip_st_ext f g kvs) end; [reflexivity |].
+      eapply Forall_impl; [| exact IH]. intros [k0 x] [Hk Hx] e m. simpl in *. apply Hx.
+  Qed.
+End DecodeDialect.
+
+Lemma unpack_dialect_independent E E' t w n :
+  fields_agree E E' -> unpack_top E t w n = unpack_top E' t w n.
+Proof. intros H. unfold unpack_top. now apply run_unpack_dialect_free. Qed.
